@@ -499,7 +499,7 @@ def check_on_geo1(
 
     # Transform to None empty dataframes
     for sheet, df in file_dict.items():
-        if df.empty:
+        if isinstance(df, pd.DataFrame) and df.empty:
             file_dict[sheet] = None
 
         # Transform to array relevant dataframes
@@ -745,7 +745,7 @@ def check_on_geo2(
 
     # Transform to None empty dataframes
     for sheet, df in file_dict.items():
-        if df.empty:
+        if isinstance(df, pd.DataFrame) and df.empty:
             file_dict[sheet] = None
 
         # Transform to array relevant dataframes
